@@ -155,7 +155,7 @@ def main():
         groups = {}
         for i, b in enumerate(spec["behaviours"]):
             init, evs = run_ops(b["n"], b.get("scale", 1), b["ops"], None, 0)
-            groups.setdefault(b["n"], []).append({"tid": b.get("tid", i + 1), "n": b["n"], "scale": b.get("scale", 1), "init": init, "events": evs})
+            groups.setdefault(b["n"], []).append({"tid": b.get("tid", i + 1), "n": b["n"], "scale": b.get("scale", 1), "light": 0, "init": init, "events": evs})
         for n, traces in groups.items():
             path = f"{a.out}_game_n{n}.json"
             D.dump(path, {"traces": traces})
@@ -172,7 +172,7 @@ def main():
             tid += 1
             scale = rng.choice([1, 1, 2, 8])
             init, evs = run_ops(n, scale, None, rng, a.length)
-            traces.append({"tid": tid, "n": n, "scale": scale, "init": init, "events": evs})
+            traces.append({"tid": tid, "n": n, "scale": scale, "light": 0, "init": init, "events": evs})
         path = f"{a.out}_game_n{n}.json"
         D.dump(path, {"traces": traces})
         files.append({"n": n, "path": path, "traces": len(traces), "events": sum(len(t["events"]) for t in traces),
